@@ -52,18 +52,51 @@ theorem C02_clocks (s next : State) (mv : Move) (sm : Spec.SMove) (hspec : toSpe
     (hcol : sm.color = absColor s.turn) (hnext : performMove s mv = some (.ok next)) :
     (abs next).halfmove = (Spec.applyMove (abs s) sm).halfmove ∧
     (abs next).fullmove = (Spec.applyMove (abs s) sm).fullmove ∧
-    next.halfmove = (if sm.kind = Spec.Kind.pawn ∨ sm.capture.isSome then 0 else s.halfmove + 1) ∧
-    next.fullmove = (if s.turn = Color.black then s.fullmove + 1 else s.fullmove) := by
+    next.halfmove = (if sm.kind = Spec.Kind.pawn ∨ sm.capture.isSome then 0 else clockSucc s.halfmove) ∧
+    next.fullmove = (if s.turn = Color.black then clockSucc s.fullmove else s.fullmove) := by
   obtain ⟨p, map, hp, hc, rfl⟩ := performMove_ok_inv hnext
   have h1 := halfmove_agree (s := s) hspec hc p hp map
   have h2 := fullmove_agree (mv := mv) hcol p map
   refine ⟨h1, h2, ?_, ?_⟩
   · have : (finish s mv p map).halfmove = (Spec.applyMove (abs s) sm).halfmove := h1
     rw [this]
-    show (if (sm.kind == Spec.Kind.pawn || sm.capture.isSome) then 0 else s.halfmove + 1) = _
-    by_cases hk : sm.kind = Spec.Kind.pawn <;> cases hcap : sm.capture.isSome <;> simp [hk]
-  · show (if s.turn == Color.black then s.fullmove + 1 else s.fullmove) = _
+    show (if (sm.kind == Spec.Kind.pawn || sm.capture.isSome) then 0 else Spec.clockSucc s.halfmove) = _
+    by_cases hk : sm.kind = Spec.Kind.pawn <;> cases hcap : sm.capture.isSome <;> simp [hk] <;> rfl
+  · show (if s.turn == Color.black then clockSucc s.fullmove else s.fullmove) = _
     cases s.turn <;> rfl
+
+/-- `clockSucc` is `+ 1` for every counter below `2^64 - 1` and stops there (`usize::saturating_add`, since the
+repair of F9: on the pinned tree `+ 1` panicked in builds with overflow checks and wrapped to 0 without) -/
+theorem clockSucc_exact {n : Nat} (h : n + 1 < 2^64) : clockSucc n = n + 1 := by unfold clockSucc; rw [if_pos h]
+theorem clockSucc_sat {n : Nat} (h : ¬ n + 1 < 2^64) : clockSucc n = n := by unfold clockSucc; rw [if_neg h]
+theorem clockSucc_lt {n : Nat} (h : n < 2^64) : clockSucc n < 2^64 := by unfold clockSucc; split <;> omega
+
+/-- **Clocks, in the property's own words**: for counters that a 64-bit FEN reader can hold and that are not at
+the very top of the range, the halfmove clock is exactly one more than before (or 0 after a pawn move or capture)
+and the fullmove number exactly one more after Black's move. -/
+theorem C02_clocks_exact (s next : State) (mv : Move) (sm : Spec.SMove) (hspec : toSpecMove mv = some sm)
+    (hcol : sm.color = absColor s.turn) (hnext : performMove s mv = some (.ok next))
+    (hh : s.halfmove + 1 < 2^64) (hf : s.fullmove + 1 < 2^64) :
+    next.halfmove = (if sm.kind = Spec.Kind.pawn ∨ sm.capture.isSome then 0 else s.halfmove + 1) ∧
+    next.fullmove = (if s.turn = Color.black then s.fullmove + 1 else s.fullmove) := by
+  have h := C02_clocks s next mv sm hspec hcol hnext
+  rw [clockSucc_exact hh, clockSucc_exact hf] at h
+  exact ⟨h.2.2.1, h.2.2.2⟩
+
+/-- counters stay representable: the successor of a state with 64-bit counters has 64-bit counters (no wrap, no
+panic — the content of the F9 repair at the model level) -/
+theorem C02_clocks_fit (s next : State) (mv : Move) (sm : Spec.SMove) (hspec : toSpecMove mv = some sm)
+    (hcol : sm.color = absColor s.turn) (hnext : performMove s mv = some (.ok next))
+    (hh : s.halfmove < 2^64) (hf : s.fullmove < 2^64) : next.halfmove < 2^64 ∧ next.fullmove < 2^64 := by
+  have h := C02_clocks s next mv sm hspec hcol hnext
+  rw [h.2.2.1, h.2.2.2]
+  constructor
+  · split
+    · decide
+    · exact clockSucc_lt hh
+  · split
+    · exact clockSucc_lt hf
+    · exact hf
 
 /-- **En-passant target.** `next.ep` is the square passed over exactly after a double pawn step, and
 `None` otherwise.  Hypotheses: `mv` reads as `sm`, squares on the board, and the double-step flag is
